@@ -58,6 +58,16 @@ func buildTrigger(sa flows.SessionAssets, spec map[string]any) (flows.Trigger, e
 		}
 	}
 	batch := spec["batch"] == true
+	var callCh *assets.ChannelReference
+	var callURN urns.URN
+	if c, ok := spec["call"].(map[string]any); ok {
+		if spec["type"] != "manual" && spec["type"] != "flow_action" {
+			return nil, nil
+		}
+		ch := c["channel"].(map[string]any)
+		callCh = assets.NewChannelReference(assets.ChannelUUID(ch["uuid"].(string)), ch["name"].(string))
+		callURN = urns.URN(c["urn"].(string))
+	}
 	switch spec["type"] {
 	case "msg":
 		if params != nil {
@@ -86,6 +96,9 @@ func buildTrigger(sa flows.SessionAssets, spec map[string]any) (flows.Trigger, e
 		if batch {
 			mb = mb.AsBatch()
 		}
+		if callCh != nil {
+			mb = mb.WithCall(callCh, callURN)
+		}
 		return mb.Build(), nil
 	case "flow_action":
 		if params != nil {
@@ -96,6 +109,9 @@ func buildTrigger(sa flows.SessionAssets, spec map[string]any) (flows.Trigger, e
 			spec["run_summary"].(json.RawMessage))
 		if batch {
 			fb = fb.AsBatch()
+		}
+		if callCh != nil {
+			fb = fb.WithCall(callCh, callURN)
 		}
 		return fb.Build(), nil
 	case "channel":
